@@ -121,7 +121,8 @@ def r2_diff_siblings(ctx):
     f = fns[0]
     body = cfg.code_body(ws, f)
     sws = [es for es in cfg.enum_switches(body, COMPARISON) if {"Equal", "Contains", "Unknown"} <= set(es.targets)]
-    if len(sws) < 5:
+    want = 5 if ctx.config == "workspace" else 4   # no file log without feature `files`
+    if len(sws) < want:
         r.violation(f.root + "|five-logs", cfg.loc(body),
                     "expected a three-way match on Comparison for each of the five log kinds, found %d" % len(sws), work=len(body.blocks))
     seen = {}
@@ -182,6 +183,8 @@ def r3_one_status(ctx):
     body = cfg.code_body(ws, dflt)
     names = {cname(t) for _i, t in idioms.real_calls(body, cfg.live_blocks(body))}
     need = {"identity_log", "account_log", "device_log", "file_log", "folder_log"}
+    if ctx.config != "workspace":
+        need.discard("file_log")   # configurations without the `files` feature have no file log
     miss = need - names
     if miss:
         r.violation(dflt.root + "|reads-all-logs", cfg.loc(body), "sync_status does not read %s" % sorted(miss), work=len(body.blocks))
@@ -303,6 +306,10 @@ def r5_hard_conflict(ctx):
             r.ok(k, cfg.loc(body), "calls %s" % sorted(set(fm)), work=len(body.blocks))
         else:
             r.note("%s has no force_merge call (informational)" % f.root)
+
+
+# extra build configurations analysed in the thorough tier
+THOROUGH_CONFIGS = ['net-min']
 
 
 def run(ctx):
